@@ -1,8 +1,11 @@
 #!/bin/bash
-# run every registered check at the given tier on the current tree; print one line per property
-tier=${1:-quick}
-cd /verif
-for id in $(python3 -c "import json; print(' '.join(c['property_id'] for c in json.load(open('MANIFEST.json'))['checks']))"); do
+# run registered checks at the given tier on the current tree; print one line per property
+# usage: run_all.sh [quick|thorough] [Cxx ...]
+tier=${1:-quick}; shift
+cd "$(dirname "$0")/.."
+ids="$@"
+[ -z "$ids" ] && ids=$(python3 -c "import json; print(' '.join(c['property_id'] for c in json.load(open('MANIFEST.json'))['checks']))")
+for id in $ids; do
   s=$(date +%s)
   out=$(./check $id $tier 2>&1); rc=$?
   e=$(( $(date +%s) - s ))
